@@ -87,6 +87,9 @@ class FsTr:
         if (isinstance(e, ast.Call) and isinstance(e.func, ast.Attribute) and e.func.attr == 'exists'
                 and _is_name(e.func.value, self.path) and not e.args and not e.keywords):
             return '(fs_exists %s %s)' % (s, self.path)
+        if (isinstance(e, ast.Call) and isinstance(e.func, ast.Attribute) and e.func.attr == 'is_dir'
+                and _is_name(e.func.value, self.path) and not e.args and not e.keywords):
+            return '(fs_is_dir %s %s)' % (s, self.path)
         raise Unsupported('boolean expression %s' % ast.dump(e)[:120])
 
     def nexpr(self, e: ast.expr, s: str) -> str:
@@ -113,7 +116,9 @@ class FsTr:
             exc = st.exc
             if isinstance(exc, ast.Call) and _is_name(exc.func, 'PermissionError'):
                 return '(%s, Err EExists)' % s
-            raise Unsupported('raise of something other than PermissionError')
+            if isinstance(exc, ast.Call) and _is_name(exc.func, 'IsADirectoryError'):
+                return '(%s, Err EIsDir)' % s
+            raise Unsupported('raise of something other than PermissionError / IsADirectoryError')
         if isinstance(st, ast.Expr) and isinstance(st.value, ast.Call):
             c = st.value
             if (isinstance(c.func, ast.Attribute) and c.func.attr == 'chmod' and _is_name(c.func.value, self.path)
@@ -398,6 +403,60 @@ def cli_pp_list(tree: ast.Module) -> str:
     return '[%s]' % '; '.join(out)
 
 
+def tr_should_generate_support(tree: ast.Module) -> str:
+    """ArgparseRunner._should_generate_support -> should_generate_support : gsmode -> bool -> bool"""
+    fn = find_function(tree, 'ArgparseRunner', '_should_generate_support')
+    body = [st for st in fn.body if not (isinstance(st, ast.Expr) and isinstance(st.value, ast.Constant))]
+    want = ("if self._args.generate_support == 'as-needed':\n"
+            "    return self._args.omit_serialization_support is None or not self._args.omit_serialization_support\n"
+            "return bool(self._args.generate_support in ('always', 'only'))")
+    got = '\n'.join(ast.unparse(st) for st in body)
+    if got != want:
+        raise Unsupported('_should_generate_support changed: %s' % got[:200])
+    # omit_serialization_support is a store_true flag: never None
+    cli = gen.read_repo('src/nunavut/cli/__init__.py')
+    tree2 = ast.parse(cli)
+    ok = False
+    choices = None
+    for n in ast.walk(tree2):
+        if isinstance(n, ast.Call) and isinstance(n.func, ast.Attribute) and n.func.attr == 'add_argument' and n.args:
+            a0 = n.args[0]
+            if isinstance(a0, ast.Constant) and a0.value == '--omit-serialization-support':
+                ok = any(k.arg == 'action' and getattr(k.value, 'value', None) == 'store_true' for k in n.keywords)
+            if isinstance(a0, ast.Constant) and a0.value == '--generate-support':
+                for k in n.keywords:
+                    if k.arg == 'choices':
+                        choices = sorted(ast.literal_eval(k.value))
+    if not ok:
+        raise Unsupported('--omit-serialization-support is not a store_true flag')
+    if choices != ['always', 'as-needed', 'never', 'only']:
+        raise Unsupported('--generate-support choices changed: %r' % (choices,))
+    return ('Definition should_generate_support (gs : gsmode) (omit : bool) : bool :=\n'
+            '  match gs with GSAsNeeded => (false || negb omit) | GSAlways | GSOnly => true | GSNever => false end.')
+
+
+def tr_support_selection(tree: ast.Module) -> str:
+    """SupportGenerator.get_templates: serialization support unless omitted, then type support"""
+    fn = find_function(tree, 'SupportGenerator', 'get_templates')
+    body = [st for st in fn.body if not (isinstance(st, ast.Expr) and isinstance(st.value, ast.Constant))]
+    want = ("files = []\n"
+            "if not omit_serialization_support:\n"
+            "    for resource in self._get_templates_by_support_type(ResourceType.SERIALIZATION_SUPPORT):\n"
+            "        files.append(resource)\n"
+            "for resource in self._get_templates_by_support_type(ResourceType.TYPE_SUPPORT):\n"
+            "    files.append(resource)\n"
+            "return files")
+    got = '\n'.join(ast.unparse(st) for st in body)
+    if got != want:
+        raise Unsupported('SupportGenerator.get_templates changed: %s' % got[:300])
+    ga = find_function(tree, 'SupportGenerator', 'generate_all')
+    loops = [n for n in ga.body if isinstance(n, ast.For) and _fs_calls(n)]
+    if len(loops) != 1 or ast.unparse(loops[0].iter) != 'self.get_templates(omit_serialization_support)':
+        raise Unsupported('SupportGenerator.generate_all does not iterate self.get_templates(omit_serialization_support)')
+    return ('Definition support_selection {A : Type} (omit : bool) (ser typ : list A) : list A :=\n'
+            '  (if negb omit then ser else []) ++ typ.')
+
+
 HEAD = (gen.HEADER % ', '.join([SRC_J, SRC_P, SRC_R])
         + 'From Coq Require Import NArith List Bool.\nFrom Verif Require Import RegenBase.\nImport ListNotations.\nOpen Scope N_scope.\n\n')
 
@@ -424,6 +483,10 @@ def gen_regen() -> typing.Tuple[bool, str]:
                      '   DSDLCodeGenerator.generate_all: every (type, path) goes to _generate_type  -- checked structurally *)\n'
                      'Definition dispatch_checked : bool := true.')
         parts.append('Definition cli_generate_phases : list phase :=\n  %s.' % cli_phases(rr))
+        parts.append('(* the guards of the two phases in ArgparseRunner._generate *)\n'
+                     'Definition generates_types (gs : gsmode) : bool := match gs with GSOnly => false | _ => true end.')
+        parts.append(tr_should_generate_support(rr))
+        parts.append(tr_support_selection(jj))
         parts.append('Definition cli_pp_list : list (bool * ppclass) :=\n  %s.' % cli_pp_list(rr))
     except (Unsupported, SyntaxError, OSError, AttributeError, IndexError) as ex:
         gen.write_if_changed(OUT, HEAD + '(* translator failed closed: %s *)\n' % str(ex).replace('*)', '* )').replace('(*', '( *'))
